@@ -4,6 +4,8 @@ C08 — generation is a deterministic function of the config and the files it na
 import Genq.Model.Pipeline
 import Genq.Model.GenSkel
 import Genq.Extracted.Gen
+import Genq.Model.ConvSkel
+import Genq.Extracted.Conv
 namespace Genq.Pipeline
 
 section Lemmas
@@ -59,3 +61,10 @@ example : generate true (fun s o => (s, o)) [3, 1, 2] [9, 4] = generate true (fu
   C08_perm_invariant _ _ _ _ _ (by decide) (by decide)
 
 end Genq.Pipeline
+
+namespace Genq
+
+/-- **C08_imports_tie** — addImportFor / ref, as in /repo now (regenerated on every run), equal to the copy the model was written from -/
+theorem C08_imports_tie : Extracted.importsSkeleton = ConvSkel.importsSkeleton := rfl
+
+end Genq
